@@ -146,6 +146,8 @@ pub struct Sim {
 }
 
 static SIM: AtomicPtr<Sim> = AtomicPtr::new(std::ptr::null_mut());
+/// bumped at every scheduling point; a run whose counter stands still in real time is spinning without system calls
+pub static PROGRESS: std::sync::atomic::AtomicU64 = std::sync::atomic::AtomicU64::new(0);
 pub static FORKED: AtomicBool = AtomicBool::new(false);
 
 thread_local! {
@@ -365,6 +367,7 @@ impl Sim {
 
     /// Run one step of a non-thread entity.
     pub fn step_entity(&mut self, e: Ent) {
+        PROGRESS.fetch_add(1, Ordering::Relaxed);
         self.steps += 1;
         match e {
             Ent::Proc(pid) => {
@@ -487,6 +490,7 @@ fn switch_to(me: u8, u: u8) {
 
 /// Called at the start of every interposed call of parent thread `t`.
 pub fn par_enter(t: u8, call: Call) {
+    PROGRESS.fetch_add(1, Ordering::Relaxed);
     {
         let s = sim();
         s.steps += 1;
